@@ -748,6 +748,31 @@ impl Judge {
                                 );
                             }
                         }
+                        // the same element list as the body of a component - defined in a template of
+                        // its own, and in a template that also extends another one (whose top-level
+                        // text is never rendered, but whose components are: seeded change C08-11
+                        // dropped the literal text of such components) - and called from a page
+                        if let Out::Ok(text) = &out {
+                            let ds = &DSETS[d];
+                            for (lib, head) in [("lib0", String::new()), ("lib1", format!("{} extends \"t\" {}", ds.bs, ds.be))] {
+                                let lib_src = format!("{head}{bs} component C(x=1) {be}{src}{bs} endcomponent C {be}", bs = ds.bs, be = ds.be);
+                                let page = format!("{} <C/> {}", ds.vs, ds.ve);
+                                let mut t2 = t.clone();
+                                match engine::add_templates(&mut t2, &[(lib.to_string(), lib_src.clone()), ("cpage".to_string(), page)]) {
+                                    Out::Ok(_) => {
+                                        let got = engine::render(&t2, "cpage", &self.ctx);
+                                        if !matches!(&got, Out::Ok(s) if s == text) {
+                                            return Out::Err(
+                                                "ComponentBodyMismatch".into(),
+                                                format!("render gives {}, the same source as the body of a component ({lib}: `{lib_src}`) called from a page gives {}", out.show(), got.show()),
+                                            );
+                                        }
+                                    }
+                                    // constructs a component body cannot hold (blocks): not this check's business
+                                    _ => {}
+                                }
+                            }
+                        }
                         match (&out, wr) {
                             (Out::Ok(text), Ok(Ok(()))) if w.0 == text.as_bytes() => out,
                             (Out::Err(..), Ok(Err(_))) => out,
